@@ -12,7 +12,8 @@ package main
 // Also in every class: some subscribers are HTTP sessions that come in through sse.Server.ServeHTTP (OnSession scripted),
 // some publications go through Server.Publish (sprinkleServer), some writers forward to a real *sse.Session
 // (sprinkleSession), some publisher threads keep ONE topics slice and rewrite it in place between calls (sprinkleReuse),
-// some subscribers present a Last-Event-ID (sprinkleIDs).
+// some subscribers present a Last-Event-ID (sprinkleIDs); in one scenario of three the topic numbers are spelled as
+// names of another shape - long, differing in one byte, NUL, UTF-8, mixed sizes (sprinkleSpelling, jSpellings in joe_run.go).
 // All randomness comes from c.R.
 
 import (
@@ -68,16 +69,18 @@ func jZeros(n int) []uint64 { return make([]uint64, n) }
 
 var jErrKindName = []string{"plain", "Temporary()", "Timeout()", "wraps-os.ErrDeadlineExceeded", "wraps-context.DeadlineExceeded",
 	"wraps-context.Canceled", "*net.OpError", "own-ctx.Err()-itself", "own-ctx.Err()-wrapped-%w", "own-ctx.Err()-in-scripted-value",
-	"wraps-sse.ErrNoTopic", "wraps-sse.ErrProviderClosed", "wraps-sse.ErrUnexpectedEOF", "wraps-io.EOF", "14", "15", "16", "17", "18", "19"}
+	"wraps-sse.ErrNoTopic", "wraps-sse.ErrProviderClosed", "wraps-sse.ErrUnexpectedEOF", "wraps-io.EOF",
+	"As(any)-answers-true", "Is(error)-answers-true", "16", "17", "18", "19"}
 
 // errOf draws a scripted error verdict: a small number, half of the time plain, else of one of the first `kinds`
 // characters (see jErr).
 func (g *jgen) errOf(kinds int) uint64 {
 	kind := 0
 	if g.r.Bool() {
-		// the characters below `kinds`, and the library's own sentinels (10-13), which need no subscriber
-		if kind = 1 + g.r.Intn(kinds-1+4); kind >= kinds {
-			kind = 10 + kind - kinds
+		// the characters below `kinds`, and those that need no subscriber: the library's own sentinels (10-13), the
+		// permissive As / Is methods (14, 15)
+		if kind = 1 + g.r.Intn(kinds-1+(jErrKindLast-jErrKindFirst+1)); kind >= kinds {
+			kind = jErrKindFirst + kind - kinds
 		}
 	}
 	return uint64(100 + 10*kind + g.r.Intn(5))
@@ -177,6 +180,9 @@ func (g *jgen) countScenario(fam, class string, s *jScenario) {
 	c.Count("shutdown-callers:" + strconv.Itoa(len(s.shuts)))
 	if len(s.parks) > 0 {
 		c.Count("parks:yes")
+	}
+	if s.spell < uint64(len(jSpellings)) {
+		c.Count("topic-names:" + jSpellings[s.spell].name)
 	}
 	seen := map[string]bool{}
 	if s.noOnSession {
@@ -500,7 +506,17 @@ func (g *jgen) noReplayer(fam string, s *jScenario) {
 	}
 }
 
+// sprinkleSpelling: in one scenario of three of every class of both families the topic numbers are spelled as names
+// of another shape (jSpellings: long names that differ in one byte, NUL, UTF-8, mixed sizes ...).  What Joe and the
+// replayers owe a subscription does not depend on how its topics are spelled.
+func (g *jgen) sprinkleSpelling(s *jScenario) {
+	if s.spell == 0 && g.r.Chance(1, 3) {
+		s.spell = uint64(1 + g.r.Intn(len(jSpellings)-1))
+	}
+}
+
 func (g *jgen) emit(fam, class string, s *jScenario) {
+	g.sprinkleSpelling(s)
 	g.sprinkleBlank(s)
 	g.sprinkleSame(s)
 	g.sprinkleIDs(fam, s)
@@ -1511,12 +1527,20 @@ func (g *jgen) tplRandom(maxSubs int) *jScenario {
 
 func genJoe(c *Ctx) {
 	g := &jgen{c: c, r: c.R}
-	mult, maxSubs := 2, 4 // quick: 976 scenarios, about 7 s
+	mult, maxSubs := 2, 4 // quick: 1219 scenarios, about 10 s
 	if c.Thorough {
 		mult, maxSubs = 20, 8 // thorough: 9760 scenarios, about 100 s
 	}
 	for n := 0; n < 60*mult; n++ {
 		g.emit("joe", "topics", g.tplTopics(maxSubs))
+	}
+	// every spelling of the topic names x the topic-shape scenarios (and, below, sprinkled over every class)
+	for rep := 0; rep < mult; rep++ {
+		for sp := 1; sp < len(jSpellings); sp++ {
+			s := g.tplTopics(maxSubs)
+			s.spell = uint64(sp)
+			g.emit("joe", "topic-names/"+jSpellings[sp].name, s)
+		}
 	}
 	for n := 0; n < 80*mult; n++ {
 		g.emit("joe", "failure-x-cancel", g.tplFail(maxSubs-1, false))
@@ -1542,8 +1566,8 @@ func genJoe(c *Ctx) {
 	// every error character at every replayer site and at a writer: 2-3 subscribers, one publisher of 3-4 messages,
 	// the fault at the second call
 	for rep := 0; rep < mult/2; rep++ {
-		for _, kind := range []uint64{0, 1, 2, 3, 4, 5, 6, 10, 11, 12, 13} {
-			for site := 0; site < 4; site++ {
+		for _, kind := range jErrKindsSweep {
+			for site := 0; site < 5; site++ {
 				s := g.base()
 				topic := uint64(g.r.Intn(3))
 				nsubs := 2 + g.r.Intn(2)
@@ -1556,10 +1580,13 @@ func genJoe(c *Ctx) {
 				case 1:
 					g.plainPubs(s, 1, 3, 4, topic, jEvN(34, jAny, uint64(nsubs)))
 					s.putScript = []uint64{0, v + 200} // the error comes together with the message
-				case 2:
+				case 2, 4:
 					s.repScript = []uint64{0, v}
 					for i := 1; i < nsubs; i++ {
 						s.subs[i].start = jEvN(31, jAny, uint64(i))
+					}
+					if site == 4 {
+						s.subs[1].idopt = g.someID() // the subscriber whose Replay fails presents a Last-Event-ID
 					}
 					g.plainPubs(s, 1, 3, 4, topic, jEvN(31, jAny, uint64(nsubs)))
 				default:
@@ -1673,12 +1700,78 @@ func (g *jgen) expiry(grid int) (m, k, extra int, gc bool) {
 	return m, k, extra, gc
 }
 
+// jOddForms: never-issued spellings of a decimal numeral %s (the replayers issue "0", "1", "2", ... only).
+var jOddForms = []struct{ name, pre, post string }{
+	{"0N", "0", ""}, {"00N", "00", ""}, {"000000N", "000000", ""}, {"+N", "+", ""}, {"-N", "-", ""},
+	{"blank-N", " ", ""}, {"N-blank", "", " "}, {"tab-N", "\t", ""}, {"N-tab", "", "\t"}, {"blank-N-blank", " ", " "},
+	{"0xN", "0x", ""}, {"0XN", "0X", ""}, {"0bN", "0b", ""}, {"0oN", "0o", ""},
+	{"N.0", "", ".0"}, {"N.", "", "."}, {"Ne0", "", "e0"}, {"N_", "", "_"}, {"_N", "_", ""}, {"N,", "", ","},
+	{"fullwidth-digits", "", ""}, {"arabic-indic-digits", "", ""}, {"digits-separated-by-_", "", ""},
+}
+
+// oddNumeral: a never-issued spelling of the decimal numeral num.
+func (g *jgen) oddNumeral(num string, form int) string {
+	f := rng.Pick(g.r, jOddForms)
+	if g.r.Chance(1, 4) {
+		f = jOddForms[g.r.Intn(3)] // leading zeros: the spellings strconv.ParseUint accepts
+	}
+	if form >= 0 && form < len(jOddForms) {
+		f = jOddForms[form]
+	}
+	out := f.pre + num + f.post
+	switch f.name {
+	case "fullwidth-digits", "arabic-indic-digits":
+		base := rune(0xFF10)
+		if f.name == "arabic-indic-digits" {
+			base = 0x0660
+		}
+		rs := []rune{}
+		for _, d := range num {
+			rs = append(rs, base+(d-'0'))
+		}
+		out = string(rs)
+	case "digits-separated-by-_":
+		out = strings.Join(strings.Split(num, ""), "_")
+		if len(num) < 2 {
+			out = num + "_" + num
+		}
+	}
+	g.c.Count("replay:never-issued-spelling-of-a-number:" + f.name)
+	if num == "0" {
+		g.c.Count("replay:never-issued-spelling-of-a-number:of-zero")
+	}
+	return out
+}
+
 // tplResume: grid < 0 the random template; grid >= 0 the n-th scenario of the directed grid "events expire, the
 // application calls GC(), somebody resumes" (replayer kind 3; see expiry).
 func (g *jgen) tplResume(maxSubs, grid int) (*jScenario, string, string) {
+	return g.tplResumeOpt(maxSubs, grid, jResumeOpt{})
+}
+
+// jResumeOpt pins dimensions of tplResume for the directed sweeps (zero values: drawn at random).
+type jResumeOpt struct {
+	kind    uint64 // replayer kind 1..3
+	auto    int    // 1 automatic IDs, 2 the publishers' own
+	present string // what the resuming subscriber presents; "at": the ID of buffered event number `at`
+	at      int
+	odd     int  // present "non-canonical": 1 + index into jOddForms
+	oddZero bool //   ... of the number zero (else of a buffered / evicted / not yet issued one)
+	m, k    int  // kind 3: m events expire, k survive, nothing else is stored, nobody collects (unless gc) before the resume
+	gc      bool
+	topics  int // > 0: the stored history is spread over that many topics and the newest stored event is NOT for the resuming subscriber
+}
+
+func (g *jgen) tplResumeOpt(maxSubs, grid int, opt jResumeOpt) (*jScenario, string, string) {
 	s := g.base()
 	s.kind = uint64(1 + g.r.Intn(3)) // 1 FiniteReplayer(cap), 2 ValidReplayer, 3 ValidReplayer whose first m accepted events expire
 	if grid >= 0 {
+		s.kind = 3
+	}
+	if opt.kind != 0 {
+		s.kind = opt.kind
+	}
+	if opt.m > 0 {
 		s.kind = 3
 	}
 	capEff := 4 // ValidReplayer: the initial ring
@@ -1690,6 +1783,9 @@ func (g *jgen) tplResume(maxSubs, grid int) (*jScenario, string, string) {
 	if grid >= 0 {
 		auto = (grid/6)%2 == 1
 	}
+	if opt.auto != 0 {
+		auto = opt.auto == 1
+	}
 	if auto {
 		s.auto = 1
 	}
@@ -1699,6 +1795,9 @@ func (g *jgen) tplResume(maxSubs, grid int) (*jScenario, string, string) {
 		// the ring exactly full (write position wrapped to the start), resumed from one of its ends
 		nbClass = rng.Pick(g.r, []string{"=cap", "2cap", "3cap"})
 		forced = rng.Pick(g.r, []string{"newest", "newest", "oldest"})
+	}
+	if opt.topics > 0 && nbClass == "0" {
+		nbClass = "cap+1"
 	}
 	nb := 0
 	switch nbClass {
@@ -1719,7 +1818,31 @@ func (g *jgen) tplResume(maxSubs, grid int) (*jScenario, string, string) {
 		nb = capEff + 2 + g.r.Intn(capEff)
 	}
 	expM, expK, quietResume := 0, 0, false
-	if s.kind == 3 {
+	if s.kind == 3 && opt.m > 0 {
+		// m expire, k survive, nothing else is stored and - unless gc - nobody has collected when the subscriber resumes:
+		// whatever collecting the replayer has left to do, it is due (the clock is 500 s past the last Put, the
+		// collection interval is TTL/4 = 250 s) and changes nothing of what it owes
+		expM, expK = opt.m, opt.k
+		nb, nbClass, forced, quietResume = opt.m+opt.k, "m+k+0", "", true
+		if opt.gc {
+			s.gc = 1
+		}
+		ring, how := jRing(opt.m+opt.k), "nobody-yet"
+		if opt.gc {
+			how = "explicit-GC"
+		}
+		class := ">len/4"
+		switch {
+		case 4*opt.k == ring:
+			class = "len/4"
+		case 4*opt.k < ring:
+			class = "<len/4"
+		case 4*(opt.k-1) == ring:
+			class = "len/4+1"
+		}
+		g.c.Count("replay:expiring:survivors:" + class + "/ring" + strconv.Itoa(ring) + "/" + how)
+		g.c.Count("replay:expiring:puts-after-expiry:0")
+	} else if s.kind == 3 {
 		m, k, extra, gc := g.expiry(grid)
 		expM, expK = m, k
 		nb, nbClass, forced = m+k+extra, "m+k+"+strconv.Itoa(extra), ""
@@ -1746,6 +1869,7 @@ func (g *jgen) tplResume(maxSubs, grid int) (*jScenario, string, string) {
 		emptyAt = g.r.Intn(nb)
 		g.c.Count("replay:one-stored-id-is-empty")
 	}
+	lastStored := -1
 	for len(ids) < nb {
 		p := len(before.msgs)
 		m := jMsgSpec{topics: []uint64{topic}}
@@ -1754,6 +1878,16 @@ func (g *jgen) tplResume(maxSubs, grid int) (*jScenario, string, string) {
 			m.topics = []uint64{2}
 		case 1:
 			m.topics = []uint64{2, topic}
+		}
+		if opt.topics > 0 && g.r.Bool() {
+			// a history over several topics (the default topic among them now and then)
+			m.topics = []uint64{uint64(1 + g.r.Intn(opt.topics))}
+			if g.r.Chance(1, 4) {
+				m.topics = append(m.topics, uint64(g.r.Intn(opt.topics+1)))
+				if m.topics[1] == m.topics[0] {
+					m.topics = m.topics[:1]
+				}
+			}
 		}
 		if g.r.Chance(1, 12) {
 			// a message the real Put refuses: nothing is stored
@@ -1789,7 +1923,21 @@ func (g *jgen) tplResume(maxSubs, grid int) (*jScenario, string, string) {
 			m.idopt = jID(id)
 			ids = append(ids, id)
 		}
+		lastStored = len(before.msgs)
 		before.msgs = append(before.msgs, m)
+	}
+	// the topics the resuming subscriber will NOT have (see below: it has topic 1, sometimes 2 as well)
+	foreign := []uint64{3}
+	if opt.topics > 0 && lastStored >= 0 {
+		// the newest stored event - sometimes the newest two - is for somebody else
+		if g.r.Chance(1, 3) {
+			foreign = []uint64{4, 3}
+		}
+		before.msgs[lastStored].topics = foreign
+		if lastStored > 0 && g.r.Chance(1, 3) {
+			before.msgs[lastStored-1].topics = []uint64{3}
+		}
+		g.c.Count("replay:history-over-several-topics,newest-stored-event-for-somebody-else")
 	}
 	if len(before.msgs) > 0 {
 		s.pubs = append(s.pubs, before)
@@ -1829,6 +1977,12 @@ func (g *jgen) tplResume(maxSubs, grid int) (*jScenario, string, string) {
 	if forced != "" {
 		present = forced
 	}
+	if opt.present != "" {
+		present = opt.present
+	}
+	if present == "at" && opt.at >= len(buffered) {
+		present = "newest"
+	}
 	if len(buffered) == 0 && (present == "oldest" || present == "middle" || present == "newest") {
 		present = "above"
 	}
@@ -1859,11 +2013,17 @@ func (g *jgen) tplResume(maxSubs, grid int) (*jScenario, string, string) {
 	case "2^64-1":
 		res.idopt = jID("18446744073709551615")
 	case "non-canonical":
-		if len(buffered) > 0 && auto {
-			res.idopt = jID("00" + buffered[len(buffered)/2])
-		} else {
-			res.idopt = jID("007")
+		// a never-issued spelling of a number: of zero, of a buffered / evicted / not yet issued ID
+		num := strconv.Itoa(g.r.Intn(len(ids) + 2))
+		if len(buffered) > 0 && auto && g.r.Bool() {
+			num = buffered[g.r.Intn(len(buffered))]
 		}
+		if g.r.Chance(1, 3) || opt.oddZero {
+			num = "0"
+		}
+		res.idopt = jID(g.oddNumeral(num, opt.odd-1))
+	case "at":
+		res.idopt = jID(buffered[opt.at])
 	}
 	// how many events lie after the presented one (an upper bound: some may not match the topics)
 	replayLen := 0
@@ -1872,6 +2032,8 @@ func (g *jgen) tplResume(maxSubs, grid int) (*jScenario, string, string) {
 		replayLen = len(buffered) - 1
 	case "middle":
 		replayLen = len(buffered) - 1 - len(buffered)/2
+	case "at":
+		replayLen = len(buffered) - 1 - opt.at
 	case "evicted":
 		if auto {
 			replayLen = len(buffered)
@@ -1949,7 +2111,11 @@ func (g *jgen) tplResume(maxSubs, grid int) (*jScenario, string, string) {
 	}
 	// sometimes a second subscriber resumes later from what the first phase left
 	if g.r.Chance(1, 5) && len(ids) > 0 {
-		x := jSubSpec{topics: []uint64{topic}, idopt: jID(ids[g.r.Intn(len(ids))]), start: jEv(9, R)}
+		pool := ids
+		if opt.m > 0 && !auto {
+			pool = buffered // nothing may have been collected yet: see the note on expired IDs in genJoeReplay
+		}
+		x := jSubSpec{topics: []uint64{topic}, idopt: jID(pool[g.r.Intn(len(pool))]), start: jEv(9, R)}
 		if ntok := jToks(s); ntok > 0 {
 			x.start = jEv(15, uint64(ntok-1))
 		}
@@ -2009,6 +2175,9 @@ func (g *jgen) tplReplayRandom(maxSubs int) *jScenario {
 		if g.r.Chance(2, 3) {
 			if auto {
 				x.idopt = jID(rng.Pick(g.r, []string{"0", "1", "2", "3", "5", "8", "12", "zz", "01", "9223372036854775808", "18446744073709551615", ""}))
+				if g.r.Chance(1, 4) {
+					x.idopt = jID(g.oddNumeral(strconv.Itoa(g.r.Intn(ntok+1)), -1))
+				}
 			} else {
 				x.idopt = jID("m" + strconv.Itoa(g.r.Intn(ntok+2)))
 			}
@@ -2043,7 +2212,7 @@ func (g *jgen) tplReplayRandom(maxSubs int) *jScenario {
 
 func genJoeReplay(c *Ctx) {
 	g := &jgen{c: c, r: c.R}
-	mult, maxSubs := 2, 4 // quick: 640 scenarios, about 5 s
+	mult, maxSubs := 2, 4 // quick: 952 scenarios, about 9 s
 	if c.Thorough {
 		mult, maxSubs = 20, 8 // thorough: 6400 scenarios, about 85 s
 	}
@@ -2057,5 +2226,47 @@ func genJoeReplay(c *Ctx) {
 	}
 	for n := 0; n < 60*mult; n++ {
 		g.emit("joe_replay", "random", g.tplReplayRandom(maxSubs))
+	}
+	// never-issued spellings of numbers (of zero, of issued and of not yet issued IDs) presented to the ID-assigning
+	// replayers: every form x {zero, another number} x {FiniteReplayer, ValidReplayer}
+	for rep := 0; rep < mult; rep++ {
+		for f := range jOddForms {
+			for z := 0; z < 2; z++ {
+				opt := jResumeOpt{kind: uint64(1 + (f+z+rep)%2), auto: 1, present: "non-canonical", odd: f + 1, oddZero: z == 0}
+				if g.r.Chance(1, 8) {
+					opt.auto = 2 // the publishers' own IDs: a numeral is a text like any other
+				}
+				s, _, _ := g.tplResumeOpt(maxSubs, -1, opt)
+				g.emit("joe_replay", "resume/never-issued-spelling-of-a-number", s)
+			}
+		}
+	}
+	// histories over several topics whose newest stored event is not for the resuming subscriber, resumed from a
+	// point that leaves events for it
+	for n := 0; n < 30*mult; n++ {
+		opt := jResumeOpt{topics: 2 + n%3, present: []string{"oldest", "middle", "evicted", "oldest", "at"}[n%5], at: 1}
+		s, _, _ := g.tplResumeOpt(maxSubs, -1, opt)
+		g.emit("joe_replay", "resume/several-topics,newest-stored-for-somebody-else", s)
+	}
+	// m events expired, k survive, nothing stored since and nobody has collected yet: (m, k) around the sizes at which a
+	// collection re-packs the ring (k against a quarter of the 8 / 16 slots), resumed from EVERY survivor and from an
+	// expired ID
+	for rep := 0; rep < mult/2; rep++ {
+		for m := 1; m <= 8; m++ {
+			for k := 1; k <= 5; k++ {
+				for at := -1; at < k; at++ {
+					opt := jResumeOpt{m: m, k: k, auto: 1 + (m+k+at+rep+2)%2, present: "at", at: at}
+					if at < 0 {
+						// an expired ID: with automatic IDs only - there the answer (every survivor) does not depend on whether
+						// the expired events have been collected yet; an expired ID of the publisher's own is still found while
+						// nobody has collected, and is unknown afterwards: when that happens is the replayer's business
+						// (C09), the monitor's buffer is the unexpired events
+						opt.present, opt.auto = "evicted", 1
+					}
+					s, _, _ := g.tplResumeOpt(maxSubs, -1, opt)
+					g.emit("joe_replay", "resume-after-expiry,nothing-collected-yet", s)
+				}
+			}
+		}
 	}
 }
